@@ -122,6 +122,13 @@ def subject_seg(r, nr):
         arr = arr[0]                        # 2-D input
     descs = [sources.seg_description(k + 1, tracking=r.random() < 0.3) for k in range(nseg)]
     kw = dict(_ids(r), **_equip())
+    inputs_extra = {}
+    if kind == 'enhanced' and r.random() < 0.5:
+        # a multi-frame source whose shared pixel measures carry no SpacingBetweenSlices (the library computes it)
+        del src[0].SharedFunctionalGroupsSequence[0].PixelMeasuresSequence[0].SpacingBetweenSlices
+    if kind in ('series', 'enhanced') and r.random() < 0.3:
+        inputs_extra['pixel_measures'] = hd.PixelMeasuresSequence(
+            pixel_spacing=(1.0, 1.0), slice_thickness=1.0, spacing_between_slices=1.0 if r.random() < 0.4 else None)
     if styp == ST.FRACTIONAL:
         kw['max_fractional_value'] = r.choice([255, 255, 1, 100])
     if kind == 'slide_tiled':
@@ -134,11 +141,11 @@ def subject_seg(r, nr):
         from pydicom.uid import RLELossless, ExplicitVRLittleEndian
         kw['transfer_syntax_uid'] = r.choice([ExplicitVRLittleEndian, RLELossless] if styp != ST.BINARY else [ExplicitVRLittleEndian])
 
-    def call(source_images, pixel_array, segment_descriptions):
-        return hd.seg.Segmentation(source_images, pixel_array, styp, segment_descriptions, **kw)
+    def call(source_images, pixel_array, segment_descriptions, **more):
+        return hd.seg.Segmentation(source_images, pixel_array, styp, segment_descriptions, **more, **kw)
     return {'name': 'seg.Segmentation', 'variant': (kind, styp.value, dtype, stacked, arr.ndim, how, nseg > 1,
-                                                     kw.get('max_fractional_value')),
-            'call': call, 'inputs': {'source_images': src, 'pixel_array': arr, 'segment_descriptions': descs}}
+                                                     kw.get('max_fractional_value'), tuple(sorted(inputs_extra))),
+            'call': call, 'inputs': {'source_images': src, 'pixel_array': arr, 'segment_descriptions': descs, **inputs_extra}}
 
 
 def subject_seg_volume(r, nr):
@@ -494,7 +501,11 @@ def subject_content(r, nr):
     rel = sr.RelationshipTypeValues.CONTAINS
     uids = [new_uid() for _ in range(12)]
 
-    def call(images, segmentation, point2d, point3d, ellipsoid, lut_data):
+    extra = [sr.TextContentItem(name=codes.DCM.AcquisitionProtocol, value='protocol',
+                                relationship_type=r.choice([sr.RelationshipTypeValues.CONTAINS,
+                                                            sr.RelationshipTypeValues.HAS_ACQ_CONTEXT]))]
+
+    def call(images, segmentation, point2d, point3d, ellipsoid, lut_data, extra_items):
         i0 = images[0]
         return [
             hd.AlgorithmIdentificationSequence(name='alg', family=codes.DCM.ArtificialIntelligence, version='1.0', source='src',
@@ -542,6 +553,7 @@ def subject_content(r, nr):
             _measurement_report(r, nr, images, use_3d=False),
             *_measurement_report(r, nr, images, use_3d=False, want_groups=True),
             *_measurement_report(r, nr, images, use_3d=True, want_groups=True),
+            sr.ImageLibraryEntryDescriptors(i0, additional_descriptors=extra_items),
             hd.seg.SegmentDescription(
                 segment_number=1, segment_label='full', segmented_property_category=codes.SCT.Tissue,
                 segmented_property_type=codes.SCT.Tissue, algorithm_type='AUTOMATIC',
@@ -551,7 +563,8 @@ def subject_content(r, nr):
                 primary_anatomic_structures=[codes.SCT.Lung]),
         ]
     return {'name': 'content bundle', 'variant': (how,), 'call': call,
-            'inputs': {'images': img, 'segmentation': seg, 'point2d': p2, 'point3d': p3, 'ellipsoid': ell, 'lut_data': lut}}
+            'inputs': {'images': img, 'segmentation': seg, 'point2d': p2, 'point3d': p3, 'ellipsoid': ell, 'lut_data': lut,
+                       'extra_items': extra}}
 
 
 SUBJECTS = [subject_content, subject_seg, subject_seg, subject_seg, subject_seg_volume, subject_pm, subject_pm, subject_sc, subject_sr,
